@@ -789,6 +789,17 @@ def run_check(pid, tier, seed):
     extra = {}
     try:
         extra = CHECKS[pid](res, {'coq_ok': coq_ok}) or {}
+        # adaptive sampling: the source text behind this property's hand model differs from the text the model was
+        # written against -> draw further samples with other seeds (no alarm by itself; bounded by a time budget)
+        changed = V.changed_sources(pid)
+        if changed:
+            res.notes.append('source text changed since the models were written (%s): extra sampling rounds' % ', '.join(changed)[:400])
+            for k in (1, 2, 3):
+                if res.violations or time.time() - res.t0 > (420 if tier == 'quick' else 3600):
+                    break
+                res.seed = seed + 7919 * k
+                CHECKS[pid](res, {'coq_ok': coq_ok})
+            res.seed = seed
     except V.BuildError as e:
         res.violation('run', None, None, None, 'build', 'family run failed at %s: %s' % (e.stage, e.log[-1500:]), suffix='no-failing-input-found')
     if res.ties and not res.violations:
